@@ -1048,6 +1048,11 @@ def C13(tier, seed, st):
             sent = hx(gens.sentence(base, gens.indices_of_entropy(rng.randbytes(20))))
             hist.append(["C %s %s" % (u, sent), "E %s %s" % (u, hx(rng.randbytes(16))), "C %s %s" % (base, sent), "C %s %s" % (u, sent), "L %s" % u])
             hist.append(["C %s %s" % (base, "-"), "C %s %s" % (base, hx(b"x y z")), "C %s %s" % (u, sent), "C %s %s" % (base, sent)])
+    # the very first call of a process: degenerate arguments under every language (zero values of any memo)
+    for base in LANGS + UNSUPPORTED[:2]:
+        hist.append(["C %s -" % base, "C %s %s" % (base, hx(b" "))])
+        hist.append(["S - -", "C %s -" % base])
+        hist.append(["E %s -" % base, "N 0 %s -" % base, "L %s" % base])
     # slices of one backing array: a later call must not see bytes written by an earlier one
     for _ in range(6 if q else 60):
         lang = rng.choice(LANGS)
